@@ -6,7 +6,7 @@ is executed against (DESIGN 3.2, Appendix D).
 """
 import zlib
 
-MAXN = 12  # upper bound on either axis of a generated start table
+MAXN = 16  # upper bound on either axis of a generated start table
 
 
 def crc(*parts):
@@ -124,6 +124,9 @@ def md_value(kind, salt, idtext, cat, ctrl=False):
         tab = _CTRL_TEXTS if ctrl and h % 3 == 0 else _TEXTS
         return tab[h % len(tab)]
     if kind == 'int':
+        if h % 5 == 0:
+            # beyond 2**53: exact only if it is never routed through a double
+            return 2 ** 53 + 1 + int(h % 1000) * 2 ** 8
         return int(h % 1000) - 200
     if kind == 'float':
         return (h % 4096) / 64.0 - 8.0
